@@ -1,6 +1,8 @@
 package main
 
 import (
+	"os"
+	"sort"
 	"bytes"
 	"context"
 	"crypto/sha256"
@@ -108,10 +110,9 @@ func (o *Obligation) Query(withModel bool) string {
 	for i, q := range lines {
 		if q.isDef {
 			defOf[q.def] = i
-		} else {
-			for _, s := range q.syms {
-				usedBy[s] = append(usedBy[s], i)
-			}
+		}
+		for _, s := range q.syms {
+			usedBy[s] = append(usedBy[s], i)
 		}
 	}
 	include := make([]bool, len(lines))
@@ -142,14 +143,18 @@ func (o *Obligation) Query(withModel bool) string {
 		for _, i := range usedBy[s] {
 			if !include[i] {
 				include[i] = true
+				if lines[i].isDef {
+					add(lines[i].def)
+				}
 				for _, t := range lines[i].syms {
 					add(t)
 				}
 			}
 		}
 	}
+	noslice := os.Getenv("GOCV_NOSLICE") != ""
 	for i, q := range lines {
-		if include[i] {
+		if include[i] || noslice {
 			b.WriteString(q.text)
 			b.WriteByte('\n')
 		}
@@ -286,8 +291,57 @@ func firstLine(s string) string {
 	return s
 }
 
+// solveAll discharges obligations. First pass: obligations of one function
+// are sent in script order to one incremental z3 process (push/check/pop),
+// which shares parsing and the common prefix. Whatever is not decided there is
+// solved individually (sliced query, three solvers raced).
 func solveAll(obls []*Obligation, timeoutS int, workers int) {
+	type group struct {
+		ex   *Exec
+		obls []*Obligation
+	}
+	var groups []*group
+	byEx := map[*Exec]*group{}
+	var rest []*Obligation
+	for _, o := range obls {
+		if o.Goal.IsTrue() || o.PC.IsFalse() {
+			if !o.Vacuity {
+				o.Status, o.Solver, o.Time = "unsat", "gocv-simplifier", 0
+				continue
+			}
+		}
+		if o.ex == nil || os.Getenv("GOCV_NOBATCH") != "" {
+			rest = append(rest, o)
+			continue
+		}
+		g := byEx[o.ex]
+		if g == nil || len(g.obls) >= 60 {
+			g = &group{ex: o.ex}
+			byEx[o.ex] = g
+			groups = append(groups, g)
+		}
+		g.obls = append(g.obls, o)
+	}
+	var mu sync.Mutex
 	var wg sync.WaitGroup
+	gch := make(chan *group)
+	for i := 0; i < workers; i++ {
+		wg.Add(1)
+		go func() {
+			defer wg.Done()
+			for g := range gch {
+				un := solveBatch(g.ex, g.obls, 2)
+				mu.Lock()
+				rest = append(rest, un...)
+				mu.Unlock()
+			}
+		}()
+	}
+	for _, g := range groups {
+		gch <- g
+	}
+	close(gch)
+	wg.Wait()
 	ch := make(chan *Obligation)
 	for i := 0; i < workers; i++ {
 		wg.Add(1)
@@ -298,11 +352,75 @@ func solveAll(obls []*Obligation, timeoutS int, workers int) {
 			}
 		}()
 	}
-	for _, o := range obls {
+	for _, o := range rest {
 		ch <- o
 	}
 	close(ch)
 	wg.Wait()
+}
+
+// solveBatch runs one incremental z3 process over the obligations (which must
+// belong to one Exec). It returns the obligations it could not decide.
+func solveBatch(ex *Exec, obls []*Obligation, perCheckS int) (undecided []*Obligation) {
+	sorted := append([]*Obligation{}, obls...)
+	sort.SliceStable(sorted, func(i, j int) bool { return sorted[i].ScriptLen < sorted[j].ScriptLen })
+	var b strings.Builder
+	b.WriteString("(set-logic ALL)\n")
+	for _, d := range ex.decls {
+		b.WriteString(d)
+		b.WriteByte('\n')
+	}
+	pos := 0
+	for _, o := range sorted {
+		for pos < o.ScriptLen {
+			b.WriteString(ex.script[pos])
+			b.WriteByte('\n')
+			pos++
+		}
+		goal := Implies(o.PC, o.Goal)
+		fmt.Fprintf(&b, "(push 1)\n(assert (not %s))\n(set-option :timeout %d)\n(check-sat)\n(set-option :timeout 4294967295)\n(pop 1)\n", goal.S, perCheckS*1000)
+	}
+	procSem <- struct{}{}
+	ctx, cancel := context.WithTimeout(context.Background(), time.Duration(perCheckS*len(sorted)+20)*time.Second)
+	cmd := exec.CommandContext(ctx, "z3-new", "-smt2", "-in")
+	cmd.Stdin = strings.NewReader(b.String())
+	var out bytes.Buffer
+	cmd.Stdout = &out
+	t0 := time.Now()
+	_ = cmd.Run()
+	cancel()
+	<-procSem
+	dur := time.Since(t0).Seconds()
+	var answers []string
+	for _, l := range strings.Split(out.String(), "\n") {
+		l = strings.TrimSpace(l)
+		if l == "sat" || l == "unsat" || l == "unknown" || l == "timeout" {
+			answers = append(answers, l)
+		} else if strings.HasPrefix(l, "(error") {
+			// an error invalidates the positional correspondence: fall back for everything
+			if os.Getenv("GOCV_DEBUG") != "" {
+				fmt.Fprintf(os.Stderr, "batch %s: solver error %s\n", ex.rootKey, l)
+			}
+			return obls
+		}
+	}
+	if os.Getenv("GOCV_DEBUG") != "" {
+		nu := 0
+		for i := range sorted {
+			if i < len(answers) && answers[i] == "unsat" {
+				nu++
+			}
+		}
+		fmt.Fprintf(os.Stderr, "batch %s: %d obligations, %d answers, %d unsat, %.2fs\n", ex.rootKey, len(sorted), len(answers), nu, dur)
+	}
+	for i, o := range sorted {
+		if i < len(answers) && answers[i] == "unsat" {
+			o.Status, o.Solver, o.Time = "unsat", "z3-5.1.0", dur/float64(len(sorted))
+			continue
+		}
+		undecided = append(undecided, o)
+	}
+	return undecided
 }
 
 // modelFor re-runs a failed obligation asking for a model.
